@@ -418,7 +418,7 @@ def r4(repo, res):
                     b = tgt.value
                     while isinstance(b, ast.Subscript):
                         b = b.value
-                    if isinstance(b, ast.Name) and b.id in mutable_globals and not _is_local(f, b.id):
+                    if isinstance(b, ast.Name) and b.id in mutable_globals and not _is_local(f, b.id) and not _only_throttles_logging(m, b.id):
                         res.ob("C14.R4", n, n, False, expected="no module-level mutable state written from a function",
                                found=f"`{b.id}` is module-level in aldy/{mname}.py", key=f"global:{mname}:{b.id}")
             # `global x` rebinds module state; `nonlocal x` only rebinds a local of the enclosing call (it dies with that call) and is not state
@@ -426,6 +426,50 @@ def r4(repo, res):
                 g = [n for n in walk_local(f) if isinstance(n, ast.Global)][0]
                 res.ob("C14.R4", g, g, False, expected="no rebinding of module-level names from a function (`global`)",
                        found=ast.unparse(g), key=f"global-stmt:{mname}:{q}")
+
+
+def _only_throttles_logging(module, name) -> bool:
+    """A module-level table every *read* of which sits in the test of an `if` whose branches hold nothing but log calls and writes to that same table
+    (a warn-once register): it cannot reach a value a stage returns."""
+    def only_logs_and_self_writes(stmts):
+        for st in stmts:
+            if isinstance(st, ast.Expr) and isinstance(st.value, ast.Call):
+                c = ast.unparse(st.value.func)
+                if c.startswith("log.") or c in (f"{name}.add", f"{name}.append", f"{name}.update", f"{name}.setdefault"):
+                    continue
+                return False
+            if isinstance(st, (ast.Assign, ast.AugAssign)):
+                t = st.targets[0] if isinstance(st, ast.Assign) else st.target
+                while isinstance(t, ast.Subscript):
+                    t = t.value
+                if isinstance(t, ast.Name) and t.id == name:
+                    continue
+                return False
+            if isinstance(st, ast.Pass):
+                continue
+            return False
+        return True
+
+    reads = 0
+    for f in module.functions.values():
+        for n in ast.walk(f):
+            if isinstance(n, ast.Name) and n.id == name and isinstance(n.ctx, ast.Load):
+                par = getattr(n, "_parent", None)
+                # the base of a store / mutator call on the table itself
+                top = n
+                while isinstance(getattr(top, "_parent", None), (ast.Subscript, ast.Attribute)) and getattr(top._parent, "value", None) is top:
+                    top = top._parent
+                stmt = top
+                while stmt is not None and not isinstance(stmt, ast.stmt):
+                    stmt = getattr(stmt, "_parent", None)
+                if isinstance(stmt, (ast.Assign, ast.AugAssign)) and any(top is t or top in ast.walk(t) for t in (stmt.targets if isinstance(stmt, ast.Assign) else [stmt.target])):
+                    continue
+                if isinstance(stmt, ast.Expr) and isinstance(stmt.value, ast.Call) and stmt.value.func is top:
+                    continue
+                reads += 1
+                if not (isinstance(stmt, ast.If) and any(n is x for x in ast.walk(stmt.test)) and only_logs_and_self_writes(stmt.body) and only_logs_and_self_writes(stmt.orelse)):
+                    return False
+    return reads > 0
 
 
 def r4_class_state(repo, res):
@@ -766,6 +810,12 @@ def run(repo, res):
 
 
 MUTANTS = [
+    dict(name="benign: a warn-once register (module-level table that only throttles a log line)", module="genotype", kind="benign",
+         edits=[("def genotype(\n", "_WARNED_LOW: dict = {}\n\n\ndef genotype(\n"),
+                ("        elif profile.cn_region and avg_cov < 20:\n            log.warn(", "        elif profile.cn_region and avg_cov < 20 and False:\n            pass\n        if gene.name not in _WARNED_LOW:\n            _WARNED_LOW[gene.name] = True\n            log.warn(")]),
+    dict(name="R4 a module-level table that reaches a stage (depth of the first call reused)", module="genotype", expect="C14.R4",
+         edits=[("def genotype(\n", "_DEPTHS: dict = {}\n\n\ndef genotype(\n"),
+                ("        avg_cov = sample.coverage.average_coverage()\n", "        if gene.name not in _DEPTHS:\n            _DEPTHS[gene.name] = sample.coverage.average_coverage()\n        avg_cov = _DEPTHS[gene.name]\n")]),
     dict(name="R5 multi-gene dispatch loses the user's neutral region (seeded C14_d1 shape)", module="genotype", expect="C14.R5",
          old="                        output_file,\n                        cn_region,\n                        cn_solution,", new="                        output_file,\n                        None,\n                        cn_solution,"),
     dict(name="R1 original defect: accessor rewrites the catalogue", module="solutions", expect="C14.R1",
